@@ -12,8 +12,13 @@ static int get_bom_skip(const std::vector<char>& buff)
 {
     if (buff.empty())
         return 0;
-    // We are comparing against unsigned
-    auto ubuff = reinterpret_cast<const unsigned char*>(buff.data());
+    // We are comparing against unsigned.
+    // Files shorter than the longest byte order mark are padded, so that no comparison reads outside of the buffer.
+    unsigned char ubuff[4] = { 0x01, 0x01, 0x01, 0x01 };
+    for (size_t i = 0; i < 4 && i < buff.size(); i++)
+    {
+        ubuff[i] = static_cast<unsigned char>(buff[i]);
+    }
     if (ubuff[0] == 0xEF && ubuff[1] == 0xBB && ubuff[2] == 0xBF)
     {
         //UTF-8
@@ -91,6 +96,11 @@ std::optional<std::string> sqf::runtime::fileio::read_file_from_disk(std::string
     {
         return {};
     }
+    std::error_code ec;
+    if (!std::filesystem::is_regular_file(std::filesystem::path(physical_path), ec))
+    { // A directory can be opened but has no size that could be read
+        return {};
+    }
     std::ifstream file(physical_path.data(), std::ios::ate | std::ios::binary);
 
     if (!file.is_open())
@@ -98,7 +108,12 @@ std::optional<std::string> sqf::runtime::fileio::read_file_from_disk(std::string
         return {};
     }
 
-    auto fileSize = static_cast<size_t>(file.tellg());
+    auto fileEnd = file.tellg();
+    if (fileEnd < 0)
+    { // Not something that can be read as a file (eg. a directory)
+        return {};
+    }
+    auto fileSize = static_cast<size_t>(fileEnd);
     std::vector<char> buffer(fileSize);
 
     file.seekg(0);
